@@ -160,6 +160,7 @@ type Machine struct {
 	writes       []writeRec
 	writeLogOn   bool
 	watchGlobals bool
+	syncDepth    int // > 0 while a lock is held / inside Once.Do / in an atomic operation
 	fmtSymBytes  []*sym.Term
 	changedWhere []string
 
@@ -256,6 +257,7 @@ func (m *Machine) RunPath(h *ssa.Function, prefix []int) (res PathResult, pendin
 	m.stack = m.stack[:0]
 	m.writes, m.writeLogOn, m.changedWhere, m.writeHook = nil, false, nil, nil
 	m.watchGlobals = false
+	m.syncDepth = 0
 	m.Harness = h.Name()
 
 	func() {
